@@ -79,6 +79,8 @@ End == /\ Is("End")
                \cup (IF judged /\ mustfail /\ ok THEN {<<"faultsuccess", l>>} ELSE {})
                \cup (IF judged /\ mustfail THEN {<<"faultaccount", l, p>> : p \in {q \in DOMAIN holds : holds[q].present \/ holds[q].in_fetcher}} ELSE {})
                \cup (IF judged /\ mustfail /\ Len(Ev.crashed) > 0 THEN {<<"faultcrash", l>>} ELSE {})
+               \* "the generation ends with an error to the client": a generation the client never hears of again has not ended
+               \cup (IF judged /\ mustfail /\ "hung" \in DOMAIN out /\ out.hung THEN {<<"faulthang", l>>} ELSE {})
        /\ UNCHANGED <<gen, out, holds, usable, thr, faults>>
 
 Other == /\ l <= Len(Trace) /\ Ev.ev \notin {"Begin", "FaultHit", "Outcome", "Holds", "Usable", "Threshold", "ContribReply", "Call", "End"}
@@ -90,7 +92,7 @@ Accepted == TLCGet(1) = Len(Trace) + 1
 
 Agreement == \A b \in bad : b[1] \notin {"agreement", "thresholdsig", "usable", "participants"}
 ThresholdRule == \A b \in bad : b[1] # "thresholdrule"
-FaultNoAccount == \A b \in bad : b[1] \notin {"faultsuccess", "faultaccount", "faultcrash"}
+FaultNoAccount == \A b \in bad : b[1] \notin {"faultsuccess", "faultaccount", "faultcrash", "faulthang"}
 PeersOnly == \A b \in bad : b[1] \notin {"nonpeer", "shareowner"}
 NoCrash == \A b \in bad : b[1] # "crash"
 =============================================================================
